@@ -59,6 +59,21 @@ def run_rule(rule, facts, tier):
     return res
 
 
+def run_rule_config(rule, facts, cfg):
+    """Thorough tier: a rule that normally reads the default configuration, run on another build configuration."""
+    mod, fn, needs = RULES[rule]
+    if needs != 'default' or cfg not in facts:
+        return []
+    holder = facts[cfg]
+    cache = holder.__dict__.setdefault('_rule_cache_cfg', {})
+    if rule in cache:
+        return cache[rule]
+    m = importlib.import_module('qlint.' + mod)
+    res = getattr(m, fn)(facts[cfg])
+    cache[rule] = res
+    return res
+
+
 def thorough_extras(prop, facts, repo):
     try:
         from . import thorough
@@ -88,7 +103,7 @@ TEXT = {
     'R-O': 'R-O: Add/Mul/Sub-const/Shl on a value tainted by an integer argument of a safe exported method needs a dominating bound on that argument '
            '(flow-insensitive taint, followed 3 calls deep; documented-panic mutators and capacity constructors exempt by table).',
     'R-W': 'R-W: in code generic over the element type T: no shift of a narrowed T by a level-dependent amount (w1), no raw symbol carried in a fixed '
-           'width integer (w2), no result rebuilt from a fixed-width accumulator (w3), no truncating index into the Huffman code table in the validity test (w2i).',
+           'width integer (w2), no result rebuilt from a fixed-width accumulator (w3), no truncating index into the Huffman code table in the validity test (w2i). w5 (all functions): no stored word narrowed by `as` and then shifted right by a computed amount.',
     'R-DA': 'R-DA: every debug_assert atom in an unchecked path equals or follows from the documented precondition (contract table + accept condition '
             'of the checked twin); negation of a conjunct or an extra constraint on an argument is a violation.',
     'R-DBG': 'R-DBG: configurations default (debug assertions, overflow checks) and rel (neither) contain the same functions calling the same callees '
@@ -103,25 +118,25 @@ TEXT = {
             'the prefetch intrinsic, returns (); (c) prefetch_* position arguments only feed arithmetic and prefetch calls; (d) MIR bodies are identical with and '
             'without feature `prefetch` except prefetch_read_NTA.',
     'R-IT': 'R-IT: for every ExactSizeIterator: len() = bound - cursor; every cursor write in next/next_back is dominated by cursor < bound and moves by one; '
-            'WTIterator constructors start at (0, len()).',
-    'R-NON': 'R-NON / R-CONV: a BitVectorMut mutator that overwrites existing bits updates n_ones depending on a read of the old content; both From conversions move all fields name-for-name.',
+            'WTIterator constructors start at (0, len()). No storage access in next/next_back depends on the cursor AFTER its step without a new bound test (store-to-load forwarding on self fields).',
+    'R-NON': 'R-NON / R-CONV: a BitVectorMut mutator that overwrites existing bits updates n_ones depending on a read of the old content; both From conversions move all fields name-for-name. The compensation of the cached count is not conditional on the validity answer of a checked accessor that the overwrite itself does not consult.',
     'R-MSK': 'R-MSK: values OR-ed into the two bit planes of a quad line are structurally one bit wide (mask before write); push step = 1 << len() shift; in-line position = (position >> 1) & 255; extend pushes as_() of every element.',
     'R-DAR': 'R-DAR: the reader indexes subblock_inventory with i/D and block_inventory with i/B; every writer branch appends a number of subblock entries that is a function of D; '
-             'the u16 store is dominated by span < C <= 2^16; groups are flushed at len == B.',
+             'the u16 store is dominated by span < C <= 2^16; groups are flushed at len == B. Every path that pushes a block_inventory entry also appends to subblock_inventory under the same conditions; block = power-of-two multiple of the sub-block.',
     'R-LVL': 'R-LVL: in the Huffman constructors the level write is dominated by shift <= code.len and the lengths passed to craft_wm_codes are the unmodified output of '
-             'Coding::from_frequencies*(BitsPerFragment(k)).code_lengths() with k = 2 (quad) / 1 (binary).',
+             'Coding::from_frequencies*(BitsPerFragment(k)).code_lengths() with k = 2 (quad) / 1 (binary). The counting pass iterates the plain element iterator of the input (no chunk_by/step_by/filter/dedup adaptor).',
     'R-DEL': 'R-DEL: From<Vec>/FromIterator/new conversion paths return new()/from() of the whole input passed through collection plumbing only.',
-    'R-SPC': 'R-SPC: every heap-bearing field flows into the value returned by space_usage_byte() (backward slice); Vec counts capacity; KiB/MiB/GiB divide by 1024^k.',
+    'R-SPC': 'R-SPC: every heap-bearing field flows into the value returned by space_usage_byte() (backward slice); Vec counts capacity; KiB/MiB/GiB divide by 1024^k. A variable-length field of components is never measured through a single element (first/last/[k]).',
     'R-LAY': 'R-LAY: (a) DataLine / SuperblockPlain are 64 bytes, align 64, and the raw u64 view uses size/8 words; (b) packed counters: writer step = reader step = mask width, '
-             'fields fit below the absolute counter, 2^w > largest in-block count; (c) hint periods exceed block sizes, duplicated constants agree; computed relative overheads stay under the stated bounds.',
+             'fields fit below the absolute counter, 2^w > largest in-block count; (c) hint periods exceed block sizes, duplicated constants agree; computed relative overheads stay under the stated bounds. (d) the public type aliases have the block size / prefetch flag / Huffman shape their names say.',
     'R-SPLIT': 'R-SPLIT: wherever one position is split into quotient and remainder by a power of two (word/bit, line/offset, block/offset, group/sub-group; 30 confirmed sites), the shift/divisor and the mask/modulus agree.',
     'R-BITS': 'R-BITS: builder, rank, rank_prefetch (both phases), select and get of one tree family extract the level fragment with the same mask (3 quad / 1 binary), move the loop-carried shift by the fragment width and rebuild symbols by the same width.',
-    'R-SMP': 'R-SMP: select samples of RSSupportPlain: the writer stores the superblock of occurrences 0, N, 2N, ... (tests the counter before incrementing it) and the reader, composed with its caller, looks up slot k / N for the 0-based occurrence k, with the same N.',
+    'R-SMP': 'R-SMP: select samples of RSSupportPlain: the writer stores the superblock of occurrences 0, N, 2N, ... (tests the counter before incrementing it) and the reader, composed with its caller, looks up slot k / N for the 0-based occurrence k, with the same N. Samples are inclusive superblock ids: the sentinel is len-1 and the reader adds 1 to the next sample.',
     'R-CMP': 'R-CMP: within one function the same two quantities are never compared with two different strictnesses (coarse and linear phase of a search test one predicate).',
     'R-HINT': 'R-HINT: in RSNarrow::new / RSWide::new the counter tested against the hint period already includes the population of the line being scanned (a variable of the numerator is updated from a popcount in a block dominating the test).',
     'R-SELP': 'R-SELP: select of the three trees uses only checked per-level rank/select whose None is propagated with `?` (no *_unchecked level query, no unwrap).',
     'R-NEG': 'R-NEG: where zeros are found by complementing a word (BIT = false), the complement is taken of the stored word itself, never of a shifted or masked value.',
-    'R-INV': 'R-INV: every call of an unsafe fn made by a safe function is in the reviewed inventory (engine/unsafe_inventory.json, 50 classified sites) or is a slice access dominated by index < len of the same slice; a new unclassified unchecked operation is reported.',
+    'R-INV': 'R-INV: per safe API function, the number of sites of each primitive unsafe operation (foreign unsafe fn, unsafe trait method on a type parameter) reached without passing through another safe API function -- private helpers and crate unsafe fns expanded -- does not exceed the reviewed inventory (engine/unsafe_inventory.json, 42 entries / 77 sites), unless the additional slice access is dominated by index < len of the same slice.',
     'R-ALL': 'R-ALL: an iteration in exact chunks (chunks_exact, array_chunks, ..) consumes its remainder or runs over a fixed array whose length is a multiple of the chunk size: no element is skipped.',
     'R-SIG': 'R-SIG: the value the constructor stores in `sigma` (bound of the symbol guard) derives from Iterator::max over a plain element iterator of the input, not from another reduction.',
     'R-PRE': 'R-PRE: where a crate function asserts `p <= C` on entry and a call site guards the same argument by a constant, the two constants agree (caller/callee belief contradiction).',
